@@ -108,7 +108,10 @@ func (r *Run) reachableWithout(ff *core.FnFacts, to ssa.Instruction, alts []stri
 	if to.Block() == f.Blocks[0] {
 		return true
 	}
-	return reachesAvoiding(ff, f.Blocks[0].Instrs[0], to, func(a, b *ssa.BasicBlock) bool {
-		return r.factsImplyAny(ff.EdgeFacts(a, b), alts, 2)
-	})
+	tb := to.Block()
+	return ff.WalkFeasiblePath([]*ssa.BasicBlock{f.Blocks[0]}, func(path []*ssa.BasicBlock, next *ssa.BasicBlock) bool {
+		fs := append([]core.Fact{}, ff.EdgeFacts(path[len(path)-1], next)...)
+		fs = append(fs, ff.PathTestFacts(path, next)...)
+		return r.factsImplyAny(fs, alts, 2)
+	}, func(b *ssa.BasicBlock) bool { return b == tb })
 }
